@@ -249,6 +249,39 @@ def check_sized_families(ctx, cirq, n):
         add('givens', [], [r], cirq.givens(r))
         add('riswap', [], [r], cirq.riswap(r))
         add('cphase', [], [r], cirq.cphase(r))
+    for _ in range(max(4, n // 4)):
+        t, sh = float(gen.rand_exponent(rng)), float(gen.rand_shift(rng))
+        add('cypow', [], [t, sh], cirq.CYPowGate(exponent=t, global_shift=sh))
+        add('ccypow', [], [t, sh], cirq.CCYPowGate(exponent=t, global_shift=sh))
+        p0, p1 = rng.randrange(3), rng.randrange(3)
+        i0, i1 = rng.random() < 0.5, rng.random() < 0.5
+        paulis = [cirq.X, cirq.Y, cirq.Z]
+        add('pauli_interaction', [p0 + 1, int(i0), p1 + 1, int(i1)], [t], cirq.PauliInteractionGate(paulis[p0], i0, paulis[p1], i1, exponent=t))
+    add('cypow', [], [1, 0], cirq.CY)
+    add('ccypow', [], [1, 0], cirq.CCY)
+    add('pauli_interaction', [3, 0, 3, 0], [1], cirq.PauliInteractionGate.CZ)
+    add('pauli_interaction', [3, 0, 1, 0], [1], cirq.PauliInteractionGate.CNOT)
+    for sub in (cirq.X, cirq.Z ** 0.3, cirq.H, cirq.Y ** 0.5):
+        for k in (1, 2, 3):
+            addk('parallel', [k], [], cirq.ParallelGate(sub, k), sub=[[[common.c2j(z) for z in row] for row in cirq.unitary(sub)]])
+    for nq in (1, 2, 3, 4):
+        for m in sorted({1, 2, 3, 2**nq - 1, 2**nq, rng.randint(1, 2**nq)}):
+            if m <= 2**nq:
+                addk('uniform_superposition', [m, nq], [], cirq.UniformSuperpositionGate(m, nq))
+    for d in (2, 3, 4, 8):
+        psi = np.array([complex(rng.gauss(0, 1), rng.gauss(0, 1)) for _ in range(d)])
+        psi /= np.linalg.norm(psi)
+        target = psi if d != 3 else None
+        if target is not None:
+            addk('state_preparation', [], [], cirq.StatePreparationChannel(psi), sub=[[[common.c2j(z) for z in psi]]])
+    for _ in range(3):
+        us = [gen.rand_unitary(rng, 2) for _ in range(rng.randint(1, 3))]
+        w = [rng.random() + 0.05 for _ in us]
+        probs = [x / sum(w) for x in w]
+        addk('mixed_unitary', [], probs, cirq.MixedUnitaryChannel(list(zip(probs, us))), sub=[[[common.c2j(z) for z in row] for row in u] for u in us])
+    for shape in ((2,), (2, 2), (3,), (2, 3)):
+        add('identity_shape', [int(np.prod(shape))], [], cirq.WaitGate(cirq.Duration(nanos=3), qid_shape=shape))
+        add('identity_shape', [int(np.prod(shape))], [], cirq.IdentityGate(qid_shape=shape))
     # channels
     for k in (1, 2, 3):
         for _ in range(3):
@@ -294,6 +327,14 @@ def check_sized_families(ctx, cirq, n):
             if not ok:
                 ctx.report_witness(f'unitary:{name}', f'cirq.unitary of a {name} gate differs from the documented matrix' + (' (up to global phase)' if phase_free else ''),
                                    dict(rep, impl_out=[repr(np.round(got, 9).tolist())[:1500]], spec_out=[repr(np.round(want, 9).tolist())[:1500]]))
+        elif name == 'parallel':
+            want, got = mat(out[0]), cirq.unitary(obj)
+            if got.shape != want.shape or not np.allclose(got, want, atol=1e-8):
+                ctx.report_witness('unitary:parallel', 'cirq.unitary(ParallelGate(g, n)) is not the n-fold tensor power of g', dict(rep, impl_out=[repr(np.round(got, 6).tolist())[:1200]], spec_out=[repr(np.round(want, 6).tolist())[:1200]]))
+        elif name == 'uniform_superposition':
+            want, got = mat(out[0])[0], cirq.unitary(obj)
+            if got.shape[0] != len(want) or not np.allclose(got[:, 0], want, atol=1e-8) or not np.allclose(got.conj().T @ got, np.eye(len(want)), atol=1e-8):
+                ctx.report_witness('unitary:uniform_superposition', 'UniformSuperpositionGate(m, n) does not map |0> to the uniform superposition of the first m states', dict(rep, impl_out=[repr(np.round(got[:, 0], 6).tolist())], spec_out=[repr(np.round(want, 6).tolist())]))
         else:
             want = [mat(m) for m in out]
             got = [np.asarray(k) for k in cirq.kraus(obj)]
